@@ -126,6 +126,8 @@ def check_run(run, pre, classes):
     if run.trace:
         for b in epoch_order(run)[2]:
             out.append(("epoch", b))
+    if any(h["op"][0] in ("create", "delete", "find", "putin", "getin") for h in run.h):
+        out.extend(check_storages(run))
     perkey = {}
     tmax = max([h["ret"] for h in run.h] + [0]) + 1
 
@@ -285,6 +287,42 @@ if __name__ == "__main__":
     text = sys.stdin.read()
     for r in parse(text):
         print(r.header, check_run(r, {}, None))
+
+
+# ---------------------------------------------------------------- storages (C13)
+def check_storages(run):
+    """the directory is a linearizable map name -> storage: create = unique insert, delete = remove,
+    find = read; a data operation on a name is a read of the directory as well (it answers
+    WARN_STORAGE_NOT_EXIST iff the name is absent at its linearization point). Of several
+    concurrent creates (deletes) of one absent (present) name exactly one succeeds."""
+    out = []
+    pern = {}
+    for h in run.h:
+        o, res = h["op"][0], h["res"].split()[0] if h["res"] else ""
+        if o == "create":
+            r = {"OK": "OK", "WARN_UNIQUE_RESTRICTION": "UNIQ"}.get(res)
+            if r is None:
+                out.append(("storage", "unexpected status %s for create" % res))
+                continue
+            pern.setdefault(h["op"][1], []).append((h["inv"], h["ret"], "put", ("S", True), r))
+        elif o == "delete":
+            r = {"OK": "OK", "WARN_NOT_EXIST": "NF"}.get(res)
+            if r is None:
+                # WARN_CONCURRENT_OPERATIONS: somebody else removed it between the lookup and the
+                # remove: it was present at one instant and absent at another; no map effect
+                if res == "WARN_CONCURRENT_OPERATIONS":
+                    continue
+                out.append(("storage", "unexpected status %s for delete" % res))
+                continue
+            pern.setdefault(h["op"][1], []).append((h["inv"], h["ret"], "rem", None, r))
+        elif o in ("find", "putin", "getin"):
+            present = res != ("WARN_NOT_EXIST" if o == "find" else "WARN_STORAGE_NOT_EXIST")
+            pern.setdefault(h["op"][1], []).append((h["inv"], h["ret"], "read", None, "S" if present else None))
+    for n, ops in pern.items():
+        init = "S" if n == "61" else None        # the workload's own storage exists from the start
+        if not lin_key(ops, init):
+            out.append(("storage", "storage %s: no linearization of %s" % (n, ops)))
+    return out
 
 
 # ---------------------------------------------------------------- sessions (C14)
